@@ -14,9 +14,9 @@ use std::sync::{Arc, Mutex};
 use std::task::{Context, Poll};
 
 #[derive(Debug, Clone, Copy, PartialEq, Eq)]
-pub enum Other { Send, SendWith, Reserve, AsyncReady, AsyncSuspended, Len, Nothing }
+pub enum Other { Send, SendWith, Reserve, AsyncReady, AsyncSuspended, Len, Nothing, Fill }
 impl Other {
-    fn name(self) -> &'static str { match self { Other::Send => "send", Other::SendWith => "send_with", Other::Reserve => "reserve", Other::AsyncReady => "async_ready", Other::AsyncSuspended => "async_suspended", Other::Len => "len", Other::Nothing => "nothing" } }
+    fn name(self) -> &'static str { match self { Other::Send => "send", Other::SendWith => "send_with", Other::Reserve => "reserve", Other::AsyncReady => "async_ready", Other::AsyncSuspended => "async_suspended", Other::Len => "len", Other::Nothing => "nothing", Other::Fill => "fill" } }
 }
 
 #[derive(Debug, Clone)]
@@ -75,6 +75,8 @@ where C: ChannelProducer<'static, u32, D>, D: 'static + std::fmt::Debug {
         Other::AsyncSuspended => suspended_send::<C, D>(chan, B_VAL, || {}),
         Other::Len => { mcx::rec("len.call", 0, 0); let n = len(); mcx::rec("len.ret", n as i64, 0) }
         Other::Nothing => {}
+        // fills the buffer while A is suspended (nobody consumes meanwhile): A's completion then meets a full channel
+        Other::Fill => { for k in 0..4 { send_ep::<C, D>(chan, Ep::Send, B_VAL + k); } }
     }
 }
 
@@ -111,7 +113,7 @@ macro_rules! scenario_body { ($chan:ident, $spec:ident, $stream:ident, $D:ty) =>
             };
             // phase 1: A (and possibly B) suspended; whatever was accepted must be obtainable now
             report("q1");
-            for _ in 0..4 { let _ = poll_logged(&mut stream, &waker, 0); }
+            if other != Other::Fill { for _ in 0..4 { let _ = poll_logged(&mut stream, &waker, 0); } }
             mcx::rec("phase1.done", 0, 0);
             // phase 2: a second suspended send is resumed before the first one (its completion must not wait for A)
             if other == Other::AsyncSuspended {
@@ -123,7 +125,14 @@ macro_rules! scenario_body { ($chan:ident, $spec:ident, $stream:ident, $D:ty) =>
             // phase 3: A is resumed; its event must arrive as well
             mcx::unpark(0);
             report("q3");
-            for _ in 0..3 { let _ = poll_logged(&mut stream, &waker, 0); }
+            if other == Other::Fill {
+                // A may legitimately be waiting for room: make room, let it finish, then collect
+                for _ in 0..5 { let _ = poll_logged(&mut stream, &waker, 0); }
+                report("q4");
+                for _ in 0..2 { let _ = poll_logged(&mut stream, &waker, 0); }
+            } else {
+                for _ in 0..3 { let _ = poll_logged(&mut stream, &waker, 0); }
+            }
             mcx::rec("phase3.done", 0, 0);
             drop(stream);
         }) as mcx::Body);
@@ -167,8 +176,10 @@ fn judge(out: &Outcome, sp: &Spec) -> Vec<(String, String)> {
         v.push(("blocked-by-suspended-send".into(), format!("{phase}: {} cannot complete (spinning with nobody able to release it): {}", who.join(" and "), ctx())));
         return v;
     }
-    for (tag, phase) in [("q1", "while the send is suspended"), ("q2", "while the first send is still suspended and the second was resumed"), ("q3", "after the suspended send was resumed")] {
+    for (tag, phase) in [("q1", "while the send is suspended"), ("q2", "while the first send is still suspended and the second was resumed"), ("q3", "after the suspended send was resumed"), ("q4", "after the suspended send was resumed and room was made")] {
         for r in log.iter().filter(|r| r.op == tag && r.b >= 2) {
+            // with the buffer filled meanwhile, the resumed sender may wait for room until the consumer polls
+            if sp.other == Other::Fill && tag == "q3" && r.a == 0 { continue }
             v.push(("blocked-by-suspended-send".into(), format!("{phase}: thread {} is spinning with nobody able to release it: {}", r.a, ctx())));
         }
     }
@@ -176,9 +187,9 @@ fn judge(out: &Outcome, sp: &Spec) -> Vec<(String, String)> {
     if out.terminal != mcx::Terminal::Done { v.push(("no-termination".into(), format!("execution ended {:?}: {}", out.terminal, ctx()))); return v }
     // phase 1: everything accepted so far (prefilled events, B's completed send) is delivered without waiting for A
     let p1 = stamp_of("phase1.done").unwrap_or(u32::MAX);
-    for k in 0..sp.pending as i64 { if !got_before(1 + k, p1) { v.push(("delivery-waits-for-suspended-send".into(), format!("event {} was in the channel before the suspended send began, but polls made while it is suspended did not yield it: {}", 1 + k, ctx()))) } }
+    for k in 0..sp.pending as i64 { if sp.other != Other::Fill && !got_before(1 + k, p1) { v.push(("delivery-waits-for-suspended-send".into(), format!("event {} was in the channel before the suspended send began, but polls made while it is suspended did not yield it: {}", 1 + k, ctx()))) } }
     let b_accepted_early = log.iter().any(|r| r.op == "s.ret" && r.a == B_VAL as i64 && r.b == 1 && r.stamp < p1);
-    if b_accepted_early && !got_before(B_VAL as i64, p1) { v.push(("delivery-waits-for-suspended-send".into(), format!("B's event was accepted while A's send is suspended, but polls made meanwhile did not yield it: {}", ctx()))) }
+    if sp.other != Other::Fill && b_accepted_early && !got_before(B_VAL as i64, p1) { v.push(("delivery-waits-for-suspended-send".into(), format!("B's event was accepted while A's send is suspended, but polls made meanwhile did not yield it: {}", ctx()))) }
     if got_before(A_VAL as i64, p1) { v.push(("suspended-event-delivered".into(), format!("A's event was yielded before its setter completed: {}", ctx()))) }
     // phase 2
     if sp.other == Other::AsyncSuspended {
@@ -201,11 +212,12 @@ pub fn scenarios(tier: Tier) -> Vec<ScenarioDef> {
     for (uni, multi) in kinds {
         let kname = match (uni, multi) { (Some(k), _) => format!("uni-{}", k.name()), (_, Some(k)) => format!("multi-{}", k.name()), _ => unreachable!() };
         let has_reserve = uni.map(|k| k.has_reserve()).unwrap_or(false) || multi.map(|k| k.has_reserve()).unwrap_or(false);
-        let mut others = vec![Other::Nothing, Other::Send, Other::SendWith, Other::AsyncReady, Other::AsyncSuspended, Other::Len];
+        let mut others = vec![Other::Nothing, Other::Send, Other::SendWith, Other::AsyncReady, Other::AsyncSuspended, Other::Len, Other::Fill];
         if has_reserve { others.push(Other::Reserve) }
         for other in others {
             for same_thread in [false, true] {
                 if same_thread && matches!(other, Other::Nothing | Other::AsyncSuspended) { continue }
+                if other == Other::Fill && multi.is_some() && !multi.map(|k| k.has_reserve()).unwrap_or(false) { continue }   // the Arc Multi channels wait by design when a listener's queue is full
                 for pending in [0usize, 1] {
                     if tier == Tier::Quick && pending == 1 && !matches!(other, Other::Nothing | Other::Send) { continue }
                     let spec = Spec { uni, multi, other, same_thread, pending };
